@@ -26,6 +26,9 @@ type Recorder struct {
 	// broker is then in the middle of Publish/Remove, still holding its per-channel publish lock):
 	// the concurrent checks yield here so that other goroutines' calls overlap this one.
 	OnCall func()
+	// OnRecord, when set before the broker is used, receives every recorded call (after it was
+	// appended; called without the recorder's lock).
+	OnRecord func(Call)
 }
 
 func View(p *centrifuge.Publication) PubView {
@@ -35,8 +38,12 @@ func View(p *centrifuge.Publication) PubView {
 func (r *Recorder) HandlePublication(ch string, pub *centrifuge.Publication, sp centrifuge.StreamPosition, _ bool, _ *centrifuge.Publication) error {
 	now := time.Now().UnixMilli()
 	r.mu.Lock()
-	r.calls = append(r.calls, Call{Ch: ch, Pub: View(pub), SP: Pos{Offset: sp.Offset, Epoch: sp.Epoch}, TimeMs: now, Seq: len(r.calls)})
+	cl := Call{Ch: ch, Pub: View(pub), SP: Pos{Offset: sp.Offset, Epoch: sp.Epoch}, TimeMs: now, Seq: len(r.calls)}
+	r.calls = append(r.calls, cl)
 	r.mu.Unlock()
+	if r.OnRecord != nil {
+		r.OnRecord(cl)
+	}
 	if r.OnCall != nil {
 		r.OnCall()
 	}
@@ -92,6 +99,12 @@ func ChannelOptions(cfg Cfg, streamTTL, metaTTL time.Duration) centrifuge.MapCha
 // NewEnv creates a Node (never Run) and a standalone MemoryMapBroker whose handler is a Recorder.
 // RegisterEventHandler starts the broker's four sweep goroutines; Close stops them.
 func NewEnv(resolve func(ch string) centrifuge.MapChannelOptions) (*Env, error) {
+	return NewEnvWith(resolve, &Recorder{})
+}
+
+// NewEnvWith is NewEnv with a caller-prepared Recorder (OnCall / OnRecord set before any
+// broker goroutine exists).
+func NewEnvWith(resolve func(ch string) centrifuge.MapChannelOptions, rec *Recorder) (*Env, error) {
 	node, err := centrifuge.New(centrifuge.Config{
 		Map: centrifuge.MapConfig{GetMapChannelOptions: resolve},
 	})
@@ -102,7 +115,6 @@ func NewEnv(resolve func(ch string) centrifuge.MapChannelOptions) (*Env, error) 
 	if err != nil {
 		return nil, err
 	}
-	rec := &Recorder{}
 	if err := b.RegisterEventHandler(rec); err != nil {
 		return nil, err
 	}
